@@ -124,7 +124,7 @@ func checkC08(c *Check) {
 	insts := runtimeInstances(c, r)
 	n := 0
 	for _, in := range insts {
-		if in.repo == nil {
+		if in.repo == nil && in.canonOf == nil {
 			n++
 		}
 	}
